@@ -67,6 +67,19 @@ def _body(ctx, conv, shape, bounds, as_coords, layout, nan_cells=None, mesh_opts
     cv = P.convention
     N = P.ncells
     ctx.note('config', dict(conv=conv, shape=str(shape), bounds=bounds, layout=layout))
+    if layout in ('extra_first', 'transposed'):
+        # earlier on the same convention: a variable that is on no grid was offered and refused, the depth coordinates
+        # were looked for (which offers every variable)
+        import xarray as _xr
+        for dims_ in (('k',), ('t', 'k')):
+            try:
+                cv.ravel(_xr.DataArray(numpy.zeros((2,) * len(dims_)), dims=dims_))
+            except ValueError:
+                pass
+        try:
+            cv.depth_coordinates
+        except Exception:
+            pass
     snap = snapshot(P.ds)
 
     polygons = cv.polygons
